@@ -20,8 +20,9 @@ import (
 // urlCase: build the URL of one route from name/value pairs (C12).
 type urlCase struct {
 	Route string   `json:"route"`
-	Pairs []core.B `json:"pairs"` // name, value, name, value … (a trailing name without value is ignored)
-	Entry string   `json:"entry"` // router | context | leaf
+	Pairs []core.B `json:"pairs"`                   // name, value, name, value … (a trailing name without value is ignored)
+	Entry string   `json:"entry"`                   // router | context | leaf
+	Pre   []core.B `json:"earlier_build,omitempty"` // pairs of a build made on the same instance just before the judged one (its result must not influence it)
 }
 
 // nameCase: naming operations and look-ups.
@@ -166,6 +167,15 @@ func genURLCase(rng *rand.Rand) *urlCase {
 	if rng.Intn(10) == 0 {
 		c.Pairs = append(c.Pairs, core.B([]string{"x", "dangling", "withOptional"}[rng.Intn(3)])) // a name without value
 	}
+	if binds := bindsOf(rt); len(binds) >= 2 && rng.Intn(10) == 0 {
+		// the judged build passes ONE value that spells out what an earlier build passed as TWO pairs, glued with a
+		// separator: any internal key made by joining arguments would confuse the two
+		sep := []string{"&", "=", ",", ";", "|", "/", " ", "\x00", ":", "&amp;", "\n", "%26"}[rng.Intn(12)]
+		v1, v2 := urlValues[1+rng.Intn(2)], "7"
+		c.Pre = []core.B{core.B(binds[0]), core.B(v1), core.B(binds[1]), core.B(v2)}
+		c.Pairs = []core.B{core.B(binds[0]), core.B(v1 + sep + binds[1] + sep + v2)}
+		return c
+	}
 	rng.Shuffle(len(c.Pairs)/2, func(i, j int) {
 		c.Pairs[2*i], c.Pairs[2*j] = c.Pairs[2*j], c.Pairs[2*i]
 		c.Pairs[2*i+1], c.Pairs[2*j+1] = c.Pairs[2*j+1], c.Pairs[2*i+1]
@@ -216,6 +226,10 @@ func judgeURL(w *core.W, c *urlCase) {
 		}
 		func() {
 			defer func() { pan = recover() }()
+			if len(c.Pre) > 0 {
+				pv, pw := pairsToVals(c.Pre)
+				_ = leaf.URLPath(pv, pw)
+			}
 			_ = leaf.URLPath(vals, !with) // an earlier build with the other setting must not influence this one
 			_ = leaf.URLPath(map[string]string{"x": "earlier"}, with)
 			got = leaf.URLPath(vals, with)
@@ -236,6 +250,10 @@ func judgeURL(w *core.W, c *urlCase) {
 		func() {
 			defer func() { pan = recover() }()
 			// earlier builds of the same named route with the other withOptional setting / other values
+			if len(c.Pre) > 0 {
+				_ = f.URLPath("n", core.Ss(c.Pre)...)
+				w.Count("earlier-build-with-glued-arguments")
+			}
 			if with {
 				_ = f.URLPath("n", "x", "earlier")
 			} else {
@@ -502,7 +520,7 @@ func runC12(r *core.Run) {
 		judgeInverse(w, c)
 	})
 	r.Gate("distinct_nontrivial", r.NonTrivialCount(), 5000)
-	for _, k := range []string{"nt:value-looks-like-another-bind", "nt:bind-unsupplied", "nt:multi-parameter-list", "nt:optional-included", "nt:optional-excluded", "entry:router", "entry:context", "entry:leaf", "naming-refused", "unknown-name-refused", "inverse-checked", "keyword-looking-bind-name"} {
+	for _, k := range []string{"nt:value-looks-like-another-bind", "nt:bind-unsupplied", "nt:multi-parameter-list", "nt:optional-included", "nt:optional-excluded", "entry:router", "entry:context", "entry:leaf", "naming-refused", "unknown-name-refused", "inverse-checked", "keyword-looking-bind-name", "earlier-build-with-glued-arguments"} {
 		r.GateCounter(k, 100)
 	}
 }
